@@ -98,4 +98,21 @@ CHECKS = {
         "thorough": [A("c05", params={"stride": 1}, what="full table, every byte position"),
                      A("c05", variant="tiny", params={"stride": 1}, what="full table, tiny variant")],
     },
+    "C17": {
+        "level": "model_checking",
+        "text": "The real hashtable.h macros are instantiated for all three key types and orders 2..13 (plus an 8-bit hop_info instantiation so that the displacement code is reachable in small tables). For small orders the COMPLETE reachable state space (canonical memory image of the table) over colliding key universes that include the last bucket (wrap-around) is explored breadth-first to a fixpoint with put/get/remove; for large orders all depth-3 operation sequences from seeded states (filled neighbourhood forcing displacement, neighbourhood straddling the table end). Every transition is compared with a reference map (returned value, previous value, every other key unaffected) and with the structural invariant (each occupied slot referenced by exactly one hop bit of its home bucket), and every refusal must be justified and leave map and structure intact.",
+        "note": "Trusted: the harness's reference map and invariant checker. Exhaustive for the stated universes and orders (a fixpoint, not a depth bound) for small orders; bounded depth for large orders.",
+        "technique": "explicit-state model checking of the implementation (BFS to fixpoint over canonical table images; bounded exhaustive sequences from seeded states)",
+        "quick": [B("c17", what="fixpoints hop-32 orders 2-3, hop-8 orders 4-5; depth-3 for string orders 7 and 13; leak scenario")],
+        "thorough": [B("c17", what="all 153 sections: fixpoints hop-32 orders 2-4, hop-8 orders 4-6; depth-3 for orders 5..13, all key types", deadline=2400)],
+    },
+    "C18": {
+        "level": "model_checking",
+        "text": "(1) Product automaton of the validator's complete state with a reference RFC 3629 DFA over all 256 byte values, BFS to a fixpoint (78 product states): decides all byte strings of all lengths for the byte-wise, text and auto-aligned (< 8 bytes) entry points, with and without is_complete. (2) 32-bit fast path: thorough sweeps ALL 2^32 words from the boundary state (quick: 40^4 class representatives) plus words from every reachable mid-sequence state; 64-bit fast path: 11^8 lane classes (+ 2^32 low/high halves in thorough); each word must give the same verdict and resulting state as its bytes fed one by one. (3) all strings of length <= 6 over 11 bytes x every split into <= 3 chunks; (4) the auto-aligned front end at all 8 alignments with strings ending at the end of the heap block (ASan).",
+        "note": "Trusted: the reference DFA (cross-checked against an independent arithmetic decoder on all strings of length <= 3). With (1) and induction over words the fast-path sweeps cover all word sequences.",
+        "technique": "explicit-state model checking (product automaton with a reference DFA to fixpoint) plus exhaustive enumeration of all machine words for the fast paths",
+        "quick": [B("c18", what="product automaton; 40^4 + 21^4 words; 11^8 lanes; chunking; alignment")],
+        "thorough": [B("c18", what="product automaton; all 2^32 words (32-bit path); 11^8 + 2^32 halves (64-bit path); chunking; alignment", deadline=3000)],
+        "thorough_deadline": 3300,
+    },
 }
